@@ -237,7 +237,8 @@ def join_aux(source_name, source_key, source_delete,  # noqa: C901
             for row_number, row in enumerate(resource, start=1):
                 key = target_key(row, row_number)
                 try:
-                    extra = create_extra_by_key(key)
+                    # a matched target row is extended by the aggregates; its own key fields stay as they are
+                    extra = create_extra_by_key(key, with_key=False)
                     db_keys_usage.set(key, True)
                 except KeyError:
                     if mode == 'inner':
@@ -255,9 +256,9 @@ def join_aux(source_name, source_key, source_delete,  # noqa: C901
                         yield extra
 
     # Creates extra by key
-    def create_extra_by_key(key):
+    def create_extra_by_key(key, with_key=True):
         extra = db.get(key)
-        key = extra.pop('__key__', None)
+        key = extra.pop('__key__', None) if with_key else None
         extra = dict(
             (k, AGGREGATORS[fields[k]['aggregate']].finaliser(v))
             for k, v in extra.items()
